@@ -9,11 +9,13 @@
 #include "cmd_simx.h"
 #include "cmd_mem.h"
 #include "cmd_fileio.h"
+#include "cmd_safe.h"
 #include "cmd_det.h"
 #include "cmd_util.h"
 #include "cmd_listing.h"
 #include "cmd_macro.h"
 #include "cmd_link.h"
+#include "cmd_reader.h"
 
 static void register_all()
 {
@@ -26,9 +28,11 @@ static void register_all()
   register_simx();
   register_mem();
   register_fileio();
+  register_safe();
   register_det();
   register_util();
   register_listing();
   register_macro();
   register_link();
+  register_reader();
 }
